@@ -133,6 +133,7 @@ var Layouts = []Layout{
 	{Name: "mixed-arrays-outer-postfix", Required: true, Indent: "    ", Blank: 1, Mixed: 1},
 	{Name: "mixed-arrays-outer-prefix", Required: true, Indent: "    ", Blank: 1, Mixed: 2},
 	{Name: "one-line-attr-same-line", Indent: "    ", Blank: 1, OneLine: true, AttrSameLine: true},
+	{Name: "definitions-on-one-line", Indent: "    ", Blank: -1, OneLine: true, AttrSameLine: true},
 }
 
 type renderer struct {
@@ -371,6 +372,11 @@ func Render(defs []*Def, l Layout) string {
 		last := i == len(defs)-1
 		if last && l.NoFinalNL {
 			break
+		}
+		if l.Blank < 0 && !last {
+			// several definitions on one line (unions and doc comments still break the line where they must)
+			r.sb.WriteString(" ")
+			continue
 		}
 		r.nl()
 		if !last {
